@@ -600,7 +600,9 @@ func (rt *runtime) convertCallParameterPath(v Value, t reflect.Type, path map[*o
 			}), nil
 		}
 	case reflect.Struct:
-		if o := v.object(); o != nil && o.class == classObjectName {
+		// A plain script object only: a bridged Go map or struct also has class Object, but its contents are
+		// not own properties, and building the struct from them would silently give the zero value.
+		if o := v.object(); o != nil && o.class == classObjectName && o.objectClass == classObject {
 			s := reflect.New(t)
 
 			for _, k := range o.propertyOrder {
